@@ -17,6 +17,7 @@ RULE = ("scenario templates (1-2 applications, up to 3 outstanding requests of u
         "slice k -> k-th virtual qubit, requests retired, nothing pending."
         ' Plus randomly generated scenarios (1-2 applications, 1-4 requests of random role / type / pair count / socket / remote, busy targets freed before the first wait, waits in random order, applications stopped by their host while others run, unnumbered link layers whose responses are equal field by field) explored exhaustively up to 150 (quick) / 600 (thorough) schedules each and randomly beyond; and a socket re-opened by the next application with a new purpose id. '
         ' Plus a request that is still outstanding when its subroutine returns and is waited for by a later subroutine of the application. '
+        " Two subroutines of one application running concurrently: a sibling leaves other values in the registers of a wait operand while the first is suspended (the awaited part is fixed when the wait starts - the monitor records the registers at that moment); two requests outstanding whose qubit ids were passed in the same, re-filled array. "
         "Non-trivial = the schedule contains a "
         "delivery that arrives before its request or is deferred, or >= 2 requests outstanding at once; distinct = "
         "distinct (scenario, choice list).")
